@@ -281,6 +281,16 @@ def build():
     some = {k: ('%s:%s' % (v[0], v[1])) for k, v in ACC_SOME.items()}
     ast_text, n_nodes, n_acc = genast.generate(some, {k: (v[1], '%s:%s' % (v[0], v[2])) for k, v in ACC_CUSTOM.items()}, ACC_REQUIRES)
     U.raw(open(__file__.replace('units/sema.py', 'contracts/sema.context2.rs')).read())
+    # the names of the standard gate library: read, on every run, from the string literals of SymbolTable::standard_library_gates
+    from vlib.rustsrc import RustFile as _RFs
+    _rfs = _RFs(os.path.join(REPO, 'crates/oq3_semantics/src/symbols.rs'))
+    try:
+        _it = _rfs.find_fn('standard_library_gates', None, 1)
+        _names = sorted(set(re.findall(r'"(\w+)"', _rfs.src[_it['header_start']:_it['end']])))
+    except KeyError:
+        _names = []
+    U.raw('/// a gate name of the standard library (generated from SymbolTable::standard_library_gates)\npub open spec fn std_gate(n: Seq<char>) -> bool { %s }\n'
+          % (' || '.join('n == "%s"@' % n_ for n_ in _names) or 'false'))
     U.raw('''pub mod synast {
 use vstd::prelude::*;
 pub mod ast { pub use super::*; }
@@ -736,6 +746,8 @@ decreases oq3_itf1.rest().len(),'''},
                ('                context.program.insert_stmt(stmt);', 'after', '''proof {
     assert(pend.len() == 0 && context.program.stmts@.len() == n0 + 1 && !(context.program.stmts@.last() is AnnotatedStmt));     //@C06:no-annotation-no-wrapper
 }'''),
+               # C07 / C09: `include "stdgates.inc"` makes every gate of the library visible (the library is defined by the include, unconditionally)
+               ('                None\n', 'before', 'proof { assert(file_path@ == "stdgates.inc"@ ==> (forall|n: Seq<char>| #[trigger] std_gate(n) ==> context.resolve(n) is Some)); }     //@C07,C09:stdgates-include-defines-the-library'),
                ('    let errors = replace(&mut context.semantic_errors, save_errors);', 'before', 'proof { assert(true); }')])
     zov['analyze_source'] = dict(ret='r', props=['C11', 'C03'], spec='''requires
     !parsed_source.sp_have_syntax_errors() ==> source::analyzable(parsed_source.sp_syntax_ast(), parsed_source.sp_included()) /* AP: established by oq3_source_file::parse_included_files */,
@@ -824,6 +836,7 @@ ensures
     U.assumed_dep = ['AST accessors (%d on %d node types) are external_body; they are functions of the (immutable) node (uninterpreted sp_<name>) and otherwise unconstrained' % (n_acc, n_nodes),
                      'Context (symbol table, diagnostics, const values) is opaque with a ghost view; lookup_symbol / lookup_gate_symbol / new_binding carry the contracts proved in unit SYM',
                      'the unverified analyser functions (closures capturing &mut Context) are assumed to only append diagnostics',
+                     'Context::standard_library_gates (flat_map / filter closures with side effects: not verified) is assumed to leave every name listed in SymbolTable::standard_library_gates bound (by it, or already before it)',
                      'std: String::as_ref keeps the characters; Result::clone clones the payload of the same variant; derive(Clone/PartialEq/Debug) structural']
     U.not_verified = ['syntax_to_semantics.rs: ' + ', '.join(sorted(S2S_UNVERIFIED)) + ', syntax_to_semantic, analyze_source, parse_* (generic SourceTrait plumbing)']
     return U
